@@ -36,7 +36,7 @@ type c19Scenario struct {
 	Reqs    []c19Req `json:"reqs"`
 }
 
-var c19Endings = []string{"served", "served", "served", "served-hints", "served-head", "served-buffered", "404", "redirect", "tls-503", "paused-504", "stopped-503",
+var c19Endings = []string{"served", "served", "served", "served-hints", "served-head", "served-buffered", "404", "redirect", "tls-503", "paused-504", "stopped-503", "bounced-503", "bounced-504",
 	"target-502", "target-504", "target-truncated", "413", "500-overflow", "abort-waiting", "abort-download", "abort-upload", "upgrade"}
 
 func c19Gen(rng *rand.Rand, idx int) c19Scenario {
@@ -79,6 +79,11 @@ func c19Gen(rng *rand.Rand, idx int) c19Scenario {
 			r.Host = "pz.example"
 		case "stopped-503":
 			r.Host = "st.example"
+		case "bounced-503", "bounced-504":
+			// passes the gate of a running service; stop (pause) takes effect before its claim is
+			// admitted, so it goes back to the gate and is answered by the proxy without ever
+			// reaching a target
+			r.Host = "bn.example"
 		case "target-502", "target-504", "target-truncated":
 			r.Host, r.Method, r.Body = "flt.example", "POST", 5
 		case "413":
@@ -148,13 +153,14 @@ func c19Run(t *testing.T, run *Run, sc c19Scenario) {
 		}) &&
 		dep("pz", "pz-t:80", server.ServiceOptions{Hosts: []string{"pz.example"}}, nil) &&
 		dep("st", "st-t:80", server.ServiceOptions{Hosts: []string{"st.example"}}, nil) &&
+		dep("bn", "bn-t:80", server.ServiceOptions{Hosts: []string{"bn.example"}}, nil) &&
 		dep("flt", "flt:80", server.ServiceOptions{Hosts: []string{"flt.example"}}, nil)
 	if !ok {
 		return
 	}
 	w.Pause("pz", time.Second, 300*time.Millisecond)
 	w.Stop("st", time.Second, "closed")
-	svcOf := map[string]string{"plain.example": "plain", "tls.example": "tlsredir", "buf.example": "buf", "bufok.example": "bufok", "pz.example": "pz", "st.example": "st", "flt.example": "flt"}
+	svcOf := map[string]string{"plain.example": "plain", "tls.example": "tlsredir", "buf.example": "buf", "bufok.example": "bufok", "pz.example": "pz", "st.example": "st", "flt.example": "flt", "bn.example": "bn"}
 	type outcome struct {
 		status   int
 		bodyLen  int
@@ -217,6 +223,20 @@ func c19Run(t *testing.T, run *Run, sc c19Scenario) {
 			}
 			time.Sleep(100 * time.Millisecond)
 			outs[r.ID] = outcome{status: -1}
+		case "bounced-503", "bounced-504":
+			w.SetReqDelay(r.ID, "service.gate.passed", 2*time.Second)
+			kind := r.Ending
+			w.At(w.Now()+time.Second, func() {
+				if kind == "bounced-503" {
+					w.Stop("bn", time.Second, "closed")
+				} else {
+					w.Pause("bn", time.Second, 300*time.Millisecond)
+				}
+			})
+			resp := w.Do(req)
+			outs[r.ID] = outcome{status: resp.Status, bodyLen: resp.BodyLen, complete: resp.Err == "" && resp.Status > 0, xtarget: resp.Target}
+			w.Wait()
+			w.Resume("bn")
 		default:
 			resp := w.Do(req)
 			outs[r.ID] = outcome{status: resp.Status, bodyLen: resp.BodyLen, complete: resp.Err == "" && resp.Status > 0, xtarget: resp.Target}
@@ -301,7 +321,7 @@ func c19Run(t *testing.T, run *Run, sc c19Scenario) {
 				return
 			}
 		default:
-			want := map[string]int{"served": 200, "served-hints": 200, "served-head": 200, "served-buffered": 200, "404": 404, "redirect": 301, "tls-503": 503, "paused-504": 504, "stopped-503": 503, "target-502": 502, "target-504": 504, "413": 413, "500-overflow": 500}[r.Ending]
+			want := map[string]int{"served": 200, "served-hints": 200, "served-head": 200, "served-buffered": 200, "404": 404, "redirect": 301, "tls-503": 503, "paused-504": 504, "stopped-503": 503, "bounced-503": 503, "bounced-504": 504, "target-502": 502, "target-504": 504, "413": 413, "500-overflow": 500}[r.Ending]
 			if o.status != want {
 				fail("harness-expectation:"+r.Ending, "request %s (%s): client got status %d, scenario expected %d", r.ID, r.Ending, o.status, want)
 				return
